@@ -341,7 +341,8 @@ func buildArg(t reflect.Type, op *Op, tv *TV) reflect.Value {
 			return reflect.Zero(t)
 		}
 		n := sliceLen(tv)
-		s := reflect.MakeSlice(t, n, n)
+		// callers' slices come with spare capacity as often as not (append-built, re-sliced, reused buffers): only the LENGTH counts
+		s := reflect.MakeSlice(t, n, n+(n*7+3)%5)
 		for i := 0; i < n; i++ {
 			s.Index(i).Set(scalar(t.Elem(), tv, i))
 		}
